@@ -1,6 +1,6 @@
 #!/bin/sh
 # Runs every quick check once (VERIF_SEED honoured) and prints a one-line summary per property.
-cd /verif
+cd "$(dirname "$0")/.."
 for c in C01 C02 C03 C04 C05 C06 C07 C08 C09 C10 C11 C12 C13 C14 C15 C16 C17 C18 C19 C20; do
   out=$(/venv/bin/python -m harness.run $c --tier quick 2>/dev/null); code=$?
   echo "exit=$code $(printf '%s\n' "$out" | tail -1)"
